@@ -667,12 +667,15 @@ class UnaryFunction(Function):
     nargs = 1
     _func_name = None
 
+    def _get_func(self, backend):
+        return getattr(backend, self._func_name)
+
     def __call__(self, variables, backend=math, **kwargs):
         (arg,) = self.all_args(variables, backend=backend, **kwargs)
-        return getattr(backend, self._func_name)(arg)
+        return self._get_func(backend)(arg)
 
     def rate_coeff(self, *args, **kwargs):
-        return getattr(kwargs.get("backend", math), self._func_name)(
+        return self._get_func(kwargs.get("backend", math))(
             self.args[0].rate_coeff(*args, **kwargs)
         )
 
@@ -684,6 +687,12 @@ class BinaryFunction(Function):
 
 class Log10(UnaryFunction):
     _func_name = "log10"
+
+    def _get_func(self, backend):
+        try:
+            return getattr(backend, self._func_name)
+        except AttributeError:  # e.g. sympy
+            return lambda x: backend.log(x) / backend.log(10)
 
 
 class Exp(UnaryFunction):
